@@ -437,3 +437,155 @@ def numba_arraydecl(repo, res):
             bad = next(((a, b) for a, b in zip(lits, want) if a != b), (None, None))
             res.fail(key, f"`{label}`: the declaration `{str(text).strip()[:70]}` reads back as {lits[:4]}..., declared values {want[:4]}... "
                      f"(first difference {bad[0]!r} vs {bad[1]!r}): table entries are not reproduced exactly", m.line(h.node))
+
+
+@rule(
+    "RECON-LAWS",
+    ["C01", "C04"],
+    "the scalar-graph reconstruction handlers (ir/analysis/reconstruct.py) are interpreted on symbolic component lists: "
+    "for operands given as their scalar components in row-major order over (value shape, free-index dimensions), the list "
+    "returned for a Sum / Division / Conditional / elementwise unary / Product with free indices / IndexSum must be, "
+    "component by component, the operation applied to the matching operand components (the summed index removed, the others "
+    "kept in order); UFL's index-flattening helpers are modelled as row-major flattening",
+    min_instances=10,
+)
+def recon_laws(repo, res):
+    import itertools
+
+    from ..absint import Rat
+
+    RM = "ffcx.ir.analysis.reconstruct"
+    m = repo.mod(RM)
+
+    def strides(shape):
+        out, acc = [], 1
+        for n_ in reversed(shape):
+            out.append(acc)
+            acc *= n_
+        return tuple(reversed(out))
+
+    def flat(idx, shape):
+        return sum(i * s_ for i, s_ in zip(idx, strides(shape)))
+
+    def mk():
+        it = Interp(repo, load_classes(repo), primary=RM)
+        it.overrides["ufl.permutation.compute_indices"] = _PyCall(lambda shape: [tuple(t) for t in itertools.product(*[range(n_) for n_ in shape])])
+        it.overrides["ufl.utils.indexflattening.shape_to_strides"] = _PyCall(lambda shape: strides(tuple(shape)))
+        it.overrides["ufl.utils.indexflattening.flatten_multiindex"] = _PyCall(lambda ii, st: sum(i * s_ for i, s_ in zip(ii, st)))
+        it.overrides["ufl.product"] = _PyCall(lambda seq: __import__("math").prod(list(seq)))
+        it.overrides["ufl.classes.Product"] = _PyCall(lambda a, b: a * b)
+        return it
+
+    def comps(name, n):
+        return [Rat.var(f"{name}{k}") for k in range(n)]
+
+    def node(kind, operands=(), shape=(), fi=(), fid=(), recon=None):
+        return Node(kind, ufl_operands=tuple(operands), ufl_shape=tuple(shape), ufl_free_indices=tuple(fi), ufl_index_dimensions=tuple(fid),
+                    _ufl_expr_reconstruct_=_PyCall(recon) if recon else None)
+
+    def check(key, label, fn, o, ops, want):
+        res.ob(key)
+        f = m.func(fn)
+        res.functions.add(f.key)
+        try:
+            got = mk().call_f(f, [o, ops])
+        except Raised as e:
+            res.fail(key, f"{fn} raises ({e.what}) on {label}", m.line(f.node))
+            return
+        if not isinstance(got, list) or len(got) != len(want):
+            res.fail(key, f"{fn} on {label}: {len(got) if isinstance(got, list) else got} scalar components returned, expected {len(want)}", m.line(f.node))
+            return
+        for k, (g_, w_) in enumerate(zip(got, want)):
+            g2 = g_ if isinstance(g_, Rat) else None
+            if g2 is None or not (g2 == w_):
+                res.fail(key, f"{fn} on {label}: component {k} is {_showr(g_)}, expected {_showr(w_)}", m.line(f.node))
+                return
+
+    # Sum / Division / Conditional / unary
+    a, b = comps("a", 4), comps("b", 4)
+    check("reconstruct:handle_sum", "two 2x2 operands", "handle_sum", node("Sum", recon=lambda x, y: x + y), [a, b], [x + y for x, y in zip(a, b)])
+    s = comps("s", 1)
+    check("reconstruct:handle_division", "2x2 operand by a scalar", "handle_division", node("Division", recon=lambda x, y: x / y), [a, s], [x / s[0] for x in a])
+    check("reconstruct:handle_elementwise_unary", "conj of 4 components", "handle_elementwise_unary", node("Conj", recon=lambda x: x * Rat.var("CONJ")), [a],
+          [x * Rat.var("CONJ") for x in a])
+    c = comps("c", 1)
+    check("reconstruct:handle_conditional", "scalar condition, 4-component branches", "handle_conditional",
+          node("Conditional", recon=lambda cc, t, f_: cc * t + (Rat.const(1) - cc) * f_), [c, a, b], [c[0] * x + (Rat.const(1) - c[0]) * y for x, y in zip(a, b)])
+    check("reconstruct:handle_scalar_nary", "power of two scalars", "handle_scalar_nary", node("Power", recon=lambda x, y: x * y * Rat.var("POW")), [comps("p", 1), comps("q", 1)],
+          [Rat.var("p0") * Rat.var("q0") * Rat.var("POW")])
+    # Product with free indices: o0 has free indices (i: 2, k: 3), o1 has (j: 2, k: 3) ; indices are ordered by count
+    for label, fi0, fid0, fi1, fid1 in (
+        ("A[i,k] * B[j,k] (free i, j, k)", (1, 3), (2, 3), (2, 3), (2, 3)),
+        ("A[k] * B[i,k] (shared k, reordered)", (3,), (3,), (1, 3), (2, 3)),
+        ("A[j] * B[i] (disjoint, second operand first in index order)", (2,), (3,), (1,), (2,)),
+    ):
+        fi = tuple(sorted(set(fi0) | set(fi1)))
+        dims = {}
+        dims.update(dict(zip(fi0, fid0)))
+        dims.update(dict(zip(fi1, fid1)))
+        fid = tuple(dims[i] for i in fi)
+        o0 = node("Indexed", fi=fi0, fid=fid0)
+        o1 = node("Indexed", fi=fi1, fid=fid1)
+        n0, n1 = 1, 1
+        for d_ in fid0:
+            n0 *= d_
+        for d_ in fid1:
+            n1 *= d_
+        A, B = comps("A", n0), comps("B", n1)
+        want = []
+        for ind in itertools.product(*[range(d_) for d_ in fid]):
+            val = dict(zip(fi, ind))
+            want.append(A[flat([val[i] for i in fi0], fid0)] * B[flat([val[i] for i in fi1], fid1)])
+        check(f"reconstruct:handle_product:{label}", label, "handle_product", node("Product", operands=(o0, o1), fi=fi, fid=fid), [A, B], want)
+    check("reconstruct:handle_product:scalar*tensor", "scalar times 4 components", "handle_product", node("Product"), [s, a], [s[0] * x for x in a])
+    check("reconstruct:handle_product:tensor*scalar", "4 components times scalar", "handle_product", node("Product"), [a, s], [x * s[0] for x in a])
+    # IndexSum: summand of value shape (2,) with free indices (i: 2, j: 3, k: 2), summing j / i / k
+    for sum_pos, label in ((1, "middle index"), (0, "first index"), (2, "last index")):
+        shape, fi, fid = (2,), (5, 7, 9), (2, 3, 2)
+        total = 2 * 2 * 3 * 2
+        ss = comps("t", total)
+        summand = node("Summand", shape=shape, fi=fi, fid=fid)
+        ic = fi[sum_pos]
+        mi = [Node("Index", count=_PyCall(lambda _c=ic: _c))]
+        o = node("IndexSum", operands=(summand, mi))
+        full = shape + fid
+        want = []
+        rest_dims = [d_ for k_, d_ in enumerate(full) if k_ != 1 + sum_pos]
+        for idx in itertools.product(*[range(d_) for d_ in rest_dims]):
+            tot = Rat.const(0)
+            for j in range(fid[sum_pos]):
+                fullidx = list(idx)
+                fullidx.insert(1 + sum_pos, j)
+                tot = tot + ss[flat(fullidx, full)]
+            want.append(tot)
+        check(f"reconstruct:handle_index_sum:{label}", f"sum over the {label} of a (2,)-valued summand with free dims (2,3,2)", "handle_index_sum", o, [ss], want)
+    # dispatch table
+    key = "reconstruct:dispatch"
+    res.ob(key)
+    tbl = None
+    for st in m.tree.body:
+        if isinstance(st, ast.Assign) and any(isinstance(t, ast.Name) and t.id == "_reconstruct_call_lookup" for t in st.targets) and isinstance(st.value, ast.Dict):
+            tbl = {ast.unparse(k).split(".")[-1]: ast.unparse(v) for k, v in zip(st.value.keys, st.value.values)}
+    if tbl is None:
+        raise AnalysisError("reconstruct: dispatch table not found")
+    want_tbl = {"Product": "handle_product", "Division": "handle_division", "Sum": "handle_sum", "IndexSum": "handle_index_sum", "Conditional": "handle_conditional",
+                "Condition": "handle_condition", "Conj": "handle_elementwise_unary", "Real": "handle_elementwise_unary", "Imag": "handle_elementwise_unary"}
+    for k, v in want_tbl.items():
+        if tbl.get(k) != v:
+            res.fail(key, f"reconstruct dispatches {k} to {tbl.get(k)}, expected {v}", m.line(m.func("reconstruct").node))
+
+
+def _showr(r):
+    from ..absint import Rat
+
+    if not isinstance(r, Rat):
+        return repr(r)[:80]
+
+    def poly(p):
+        terms = []
+        for mono, c in sorted(p.items()):
+            t = "*".join(v if k == 1 else f"{v}^{k}" for v, k in mono) or "1"
+            terms.append(t if c == 1 else f"{c}*{t}")
+        return " + ".join(terms) or "0"
+
+    return poly(r.num) if r.den == {(): 1} else f"({poly(r.num)})/({poly(r.den)})"
